@@ -122,8 +122,9 @@ CLAIMED.update({
              "search continues; a returned package is always justified by the file system; only ModuleNotFoundError escapes), and the single-search-path table "
              "(module file not hidden by a bare directory); ModuleFinder.iter_submodules for one generic module file from an arbitrary set of already-claimed "
              "sub-package directories (skip rule, own __init__ silent, sub-package __init__ claims its directory, name parts, the consulted skip set is a "
-             "snapshot the pass does not change). Listing-order independence, equality with the import system and requests by path (_top_module_name is not under "
-             "contract) are a bounded native tier.",
+             "snapshot the pass does not change). _top_module_name (request by path: the parent of the returned directory becomes the FIRST search path unless a configured one lies above the "
+             "request) for search-path lists of length 0-2, directory climb havocked: bounded-sizes tier. Listing-order independence and equality with the import "
+             "system are a bounded native tier.",
         note="Listings are consumed through membership only (a change that depends on order becomes undecided); module names without dots. Known finding C14-F1 "
              "(namespace packages with clashing portions).",
         ref="DESIGN.md 3/C14"),
